@@ -225,10 +225,11 @@ inductive WriteRes where
 def creatorCreate (c : Cfg) (st : Store) (key val : Bytes) (rev : Nat) (fs : List Fault) :
     CommitRes × Store × List Fault :=
   let ops1 := [BOp.pine (idxKey key) (be8 rev), BOp.put (encode key rev) val]
-  let (f1, fs) := nextFault fs
+  let (f1, fs') := nextFault fs
   let (r1, st) := doCommit c st ops1 f1
   match r1 with
   | .conflict idx cv =>
+    -- a fault directive is consumed only by a commit whose conditions hold: still pending here
     -- old index value: from the conflict when Idx == 0, else re-read
     let oldRev? : Except CommitRes Bytes :=
       if idx == some 0 then .ok (cv.getD [])
@@ -249,7 +250,7 @@ def creatorCreate (c : Cfg) (st : Store) (key val : Bytes) (rev : Nat) (fs : Lis
           let (r2, st) := doCommit c st [BOp.cas (idxKey key) (be8 rev) old, BOp.put (encode key rev) val] f2
           (r2, st, fs)
         else (.conflict none none, st, fs)
-  | r => (r, st, fs)
+  | r => (r, st, fs')
 
 def commitErr (r : CommitRes) : Err :=
   match r with
@@ -345,6 +346,29 @@ def doDelete (c : Cfg) (s : BState) (key : Bytes) (exp : Nat) (fs : List Fault) 
         | .found v m => (.condFailed (max rev m) (some (key, v, m)), s)
         | .notFound _ => (.condFailed rev (some (key, oldVal, modRev)), s)
       | r => (.error (commitErr r), s)
+
+
+/-! ### async retry of uncertain writes (retry/retry.go) -/
+
+/-- One `retry()` of the head of the retry queue (sequential setting: the dispatcher's notification
+is sequenced eagerly). The head is popped only when the rewrite succeeded or failed its condition. -/
+def doRetry (c : Cfg) (s : BState) (f : Fault) : BState :=
+  match s.retryQ with
+  | [] => s
+  | w :: rest =>
+    match getInternal c s.store w.key 0 with
+    | none => { s with retryQ := rest }
+    | some (val, modRev) =>
+      if val.length == 0 || modRev != w.rev then { s with retryQ := rest }
+      else
+        let rev := s.dealt + 1
+        let s := { s with dealt := rev }
+        let flag : Bytes := if isTomb val then [0] else []
+        let (r, st) := doCommit c s.store
+          [BOp.cas (idxKey w.key) (be8 rev ++ flag) (be8 w.rev ++ flag), BOp.put (encode w.key rev) val] f
+        let keep := !(r == .ok || r.isCas)   -- unknown outcome or a storage error: still unrepaired
+        let s := { s with store := st, retryQ := if keep then w :: rest else rest }
+        sequence s { w with rev := rev, valid := r == .ok, uncertain := r == .uncertain }
 
 /-! ### range reads -/
 
